@@ -165,6 +165,82 @@ fn judge(snap: &Snapshot, batches: &[Batch], trunc: &BTreeMap<String, u64>) -> R
     Ok((whole, none, suffix))
 }
 
+/// See the call site.  Returns false after reporting a violation.
+#[allow(clippy::too_many_arguments)]
+fn aimed_continuation(ctx: &Ctx, run: &LiveRun, k: usize, wbegin: usize, i: usize, img: &crate::image::Image, vis: &[Batch], trunc: &BTreeMap<String, u64>, rng: &mut Rng, case: u64, acc: &mut Acc) -> bool {
+    let Op::Append { q, lens, .. } = &run.ops[k] else { return true };
+    // where the call started writing
+    let Some((first_name, first_off)) = (wbegin + 1..=i).find_map(|j| match &run.events[j] {
+        Ev::Write { name, off, data, .. } if !data.is_empty() => Some((name.clone(), *off as usize)),
+        _ => None,
+    }) else {
+        return true;
+    };
+    // frames of the torn entry present in the image
+    let mine: Vec<(String, crate::layout::Frame)> = all_frames(img).into_iter().filter(|(n, f)| *n > first_name || (*n == first_name && f.off >= first_off)).collect();
+    if mine.is_empty() || mine.iter().any(|(_, f)| !f.crc_ok) || matches!(mine.last().unwrap().1.ftype, 1 | 4) || mine[0].1.ftype != 2 {
+        return true;
+    }
+    let have: usize = mine.iter().map(|(_, f)| f.len).sum();
+    let hdr = 11 + q.len();
+    // the record of the torn batch that the cut goes through
+    let mut start = hdr;
+    let mut hit: Option<(usize, usize, usize)> = None;
+    for (j, l) in lens.iter().enumerate() {
+        let end = start + 12 + l;
+        if have < end {
+            hit = Some((j, start, end));
+            break;
+        }
+        start = end;
+    }
+    let Some((j, rstart, rend)) = hit else { return true };
+    if j > 1 || have < rstart + 12 {
+        return true;
+    }
+    let missing = rend - have;
+    let need = hdr + 2 * (12 + 16);
+    if missing < need {
+        return true;
+    }
+    let a = 16 + rng.below((missing - need) as u64 + 1) as usize;
+    let bl = missing - hdr - 24 - a;
+    let dir = ctx.scratch.sub("c12-cont");
+    crate::util::clear_dir(&dir);
+    img.materialize(&dir);
+    let (r, sut, _) = recover(&dir, run.policy, run.key);
+    let (Recovered::Ok(_), Some(mut sut)) = (r, sut) else { return true };
+    let kb = run.ops.len() + 1000;
+    let blens = vec![a, bl, 16, 16, 16];
+    let bop = Op::Append { q: q.clone(), pos: None, lens: blens.clone(), chained: false };
+    let Outcome::Appended { last: Some(last), .. } = sut.apply(kb, &bop) else { return true };
+    if matches!(sut.apply(kb + 1, &Op::Restart), Outcome::Err(_)) {
+        // C01/C02 territory: an acknowledged batch makes the next open fail
+        acc.count("aimed_continuations_whose_restart_failed_(C02_territory)");
+        return true;
+    }
+    let Ok(s) = Snapshot::take(sut.log()) else { return true };
+    acc.eval();
+    acc.count("aimed_continuations_after_a_clean_cut_inside_a_batch");
+    let mut all: Vec<Batch> = vis.iter().map(|x| Batch { op: x.op, queue: x.queue.clone(), inc: x.inc, first: x.first, hashes: x.hashes.clone() }).collect();
+    all.push(Batch {
+        op: kb,
+        queue: q.clone(),
+        inc: u32::MAX, // another timeline: it re-uses the positions of the torn batch
+        first: last + 1 - blens.len() as u64,
+        hashes: blens.iter().enumerate().map(|(ix, l)| payload_hash(run.key, Pid { op: kb as u32, idx: ix as u32, len: *l as u32 })).collect(),
+    });
+    if let Err((what, detail)) = judge(&s, &all, trunc) {
+        acc.violation(
+            format!("C12/crash-continuation/{}", what),
+            case,
+            json!({"history": run.history_json(k + 1), "crash_point": {"inside_call": k, "after_effect_index": i, "frames_of_the_torn_batch_on_disk": mine.len(), "entry_bytes_on_disk": have}, "continuation": [bop.to_json(), {"op": "restart"}], "observation": detail, "recovered": s.to_json()}),
+        );
+        return false;
+    }
+    true
+}
+
 impl Monitor for C12 {
     fn id(&self) -> &'static str {
         "C12"
@@ -187,10 +263,11 @@ impl Monitor for C12 {
             ("batch_judgements_truncated_suffix_recovered", tier.pick(500, 10_000)),
             ("damage_on_len_or_type_byte", tier.pick(5_000, 100_000)),
             ("recoveries_with_one_failing_read", tier.pick(5_000, 100_000)),
+            ("aimed_continuations_after_a_clean_cut_inside_a_batch", tier.pick(300, 6_000)),
         ]
     }
     fn rule(&self) -> String {
-        "case = one focused history (1..2 queues, 4..14 batch appends of 1..64 self-identifying records totalling 16 B .. 3 WAL files, plus frame-commensurate batches of 400..700 records of 169 bytes / 3..5 records of 32749 bytes (12+len divides the 32761-byte frame payload), interleaved truncations of the same queue and, one op in nine, delete_queue + create_queue of the same name so that later batches re-use positions of an earlier incarnation) under Always(Flush); crash leg: every file-system effect boundary and frame-relative byte cuts of every write; damage leg: every frame written by a batch x {payload bit, payload garbage, checksum, length byte, type byte}; evaluation = one recovery; oracle over batch boundaries known to the harness: each batch is recovered as nothing, everything, or a hole-free suffix ending at its last record whose missing head is at or below a truncate position issued on that queue; read-fault leg: up to 10 recoveries of the final image with one read failing once (EIO): if open returns a log anyway the same oracle applies; distinct_nontrivial = distinct (case, crash point or damaged frame+kind) inside or on a batch of >= 2 records".into()
+        "case = one focused history (1..2 queues, 4..14 batch appends of 1..64 self-identifying records totalling 16 B .. 3 WAL files, plus frame-commensurate batches of 400..700 records of 169 bytes / 3..5 records of 32749 bytes (12+len divides the 32761-byte frame payload), interleaved truncations of the same queue and, one op in nine, delete_queue + create_queue of the same name so that later batches re-use positions of an earlier incarnation) under Always(Flush); crash leg: every file-system effect boundary and frame-relative byte cuts of every write; damage leg: every frame written by a batch x {payload bit, payload garbage, checksum, length byte, type byte}; evaluation = one recovery; oracle over batch boundaries known to the harness: each batch is recovered as nothing, everything, or a hole-free suffix ending at its last record whose missing head is at or below a truncate position issued on that queue; continuation leg: at a clean cut between two write() calls of a multi-write batch the recovered log receives a batch whose first two sizes are aimed at the bytes missing from the torn batch's straddling record, is restarted, and every batch is judged again; read-fault leg: up to 10 recoveries of the final image with one read failing once (EIO): if open returns a log anyway the same oracle applies; distinct_nontrivial = distinct (case, crash point or damaged frame+kind) inside or on a batch of >= 2 records".into()
     }
     fn assumptions(&self) -> Vec<String> {
         vec!["records are >= 16 bytes and carry their (op, index, length) identity, so membership of a recovered record in a batch is unambiguous even where a re-created queue re-uses positions".into()]
@@ -328,6 +405,18 @@ impl Monitor for C12 {
                     let img = b.cur.clone();
                     if !check(&img, &mut mat, json!({"inside_call": k, "effect_index": i, "after_effect": ev.brief()}), acc) {
                         return;
+                    }
+                    // clean cut between two writes of a multi-write batch: continue on the
+                    // recovered log with a batch whose sizes are aimed at what is missing of the
+                    // torn batch's straddling record, restart, and judge again (a reader that
+                    // glues the leftover First frame to the next entry then exposes a batch
+                    // that is neither whole nor absent)
+                    let later_write = (i + 1..w.end).any(|j| matches!(&run.events[j], Ev::Write { data, .. } if !data.is_empty()));
+                    if is_batch && later_write && matches!(ev, Ev::Write { .. }) {
+                        let vis: Vec<Batch> = visible.iter().map(|x| Batch { op: x.op, queue: x.queue.clone(), inc: x.inc, first: x.first, hashes: x.hashes.clone() }).collect();
+                        if !aimed_continuation(ctx, &run, k, w.begin, i, &img, &vis, &trunc, &mut rng, case, acc) {
+                            return;
+                        }
                     }
                 }
             }
